@@ -304,6 +304,24 @@ def d4(prog: Program, chk: Check) -> None:
                 f"influence, reported states lose Hermiticity", c)
 
 
+# --------------------------------------------------------------------- D5
+def d5(prog: Program, chk: Check) -> None:
+    chk.rule("D5", "imaginary-time path of the Gibbs back end: all factors built from the "
+             "half-step propagator carry the same transposition parity (storage + use). The "
+             "propagator exp(-H dt/2) is Hermitian; a path mixing P and P^T closes to a matrix "
+             "that is not Hermitian as soon as H has complex entries", floor=4)
+    from rules.c11 import propagator_parities
+    p0, uses = propagator_parities(prog)
+    pars = [(p0 + par) % 2 for (_, _, _, par) in uses]
+    majority = 1 if sum(pars) * 2 >= len(pars) else 0
+    for (mu, st, x, par) in uses:
+        ok = (p0 + par) % 2 == majority
+        chk.add("D5", mu, f"{norm(st)[:70]}", ok,
+                f"{p0} transpose(s) at storage + {par} at this use; the other factors carry "
+                f"parity {majority}" if not ok else f"parity {(p0 + par) % 2} like every other factor", x)
+
+
+
 def run(prog: Program, chk: Check) -> None:
     chk.explanation = (
         "Claims C04 IN PART: the clauses that hold by construction. D1 every Lindblad dissipator "
@@ -312,7 +330,8 @@ def run(prog: Program, chk: Check) -> None:
         "convention, so commutators annihilate the trace; D3 normalised read-outs (Gibbs state "
         "X/tr X, PT-TEBD norm = total trace); D4 the influence exponent has the later commutator "
         "eigenvalue as an overall factor (trace) and the Re/commutator, i*Im/anticommutator "
-        "pairing (Hermiticity). Each is a necessary condition: breaking it breaks unit trace or "
+        "pairing (Hermiticity); D5 the Gibbs back end uses one orientation of the Hermitian "
+        "half-step propagator throughout its path. Each is a necessary condition: breaking it breaks unit trace or "
         "Hermiticity for dissipative / generic inputs.")
     chk.not_decided = ("Positivity, and the numerical size of trace / Hermiticity deviations of the "
                        "SVD-truncated contractions at every step (numerical invariants; no sound "
@@ -325,3 +344,4 @@ def run(prog: Program, chk: Check) -> None:
     d2(prog, chk)
     d3(prog, chk)
     d4(prog, chk)
+    d5(prog, chk)
